@@ -275,12 +275,14 @@ let run_mode () = run_driver (fun toks impl ->
         | Ok (v, []) ->
           let mbs = enc s v in
           let re = hex_of_bytes mbs in
-          (* the model value is in the property's domain when it is schema-valid, in the writers' image, and the
-             Conway rule accepts the MODEL's encoding of it (i.e. the value itself is Conway-valid) *)
-          let dom = wfv s v && refined writer_form s v && re = hexs && judge r mbs in
+          (* the property's domain on the model side: a schema-valid value in the writers' image that satisfies the
+             Conway constraints on TYPED values (Coq: conforms; theorem C03_conforms: then the model's bytes conform) *)
+          let dom = wfv s v && refined writer_form s v && re = hexs && conforms_bytes conway_env s r v in
           let verdict =
             match impl with
-            | ["ok"; h] -> if judge r (bytes_of_hex h) then "holds" else if dom then "fails:-" else "na"
+            | ["ok"; h] -> (match int_of_n (judge_class r (bytes_of_hex h)) with
+                | 0 -> "holds"
+                | c -> if not dom then "na" else if c = 1 then "fails:C03-mint-quantity-outside-int64" else "fails:-")
             | _ -> if dom then "fails:-" else "na" in
           ("ok " ^ re, verdict)
         | Ok (_, _) -> ("err", "na")
@@ -294,16 +296,20 @@ let run_mode () = run_driver (fun toks impl ->
        (match impl with
         | ["ok"; h] ->
           let bs = bytes_of_hex h in
-          let ok = judge r bs in
-          (* model result: the bytes are in the image of the model encoder on a schema-valid value *)
+          (* model result.  Route 1 (head `ok`): the bytes are enc s v for the schema-valid value v = dec s bytes, so the
+             theorems about enc speak about them.  Route 2 (head `ok-tree`): the schema model does not cover this value
+             (a legacy output WITH datum hash inside a body, or a value outside the schema's bounds built through a
+             non-validating constructor); then only the independent reader ties them: parse_exact + shortest re-printing *)
           let m = (match dec s bs with
-              | Ok (v, []) -> if wfv s v || starts_with "nv_" label then "ok " ^ hex_of_bytes (enc s v) else "outside-schema-domain"
-              | _ -> "outside-schema") in
+              | Ok (v, []) when wfv s v -> "ok " ^ hex_of_bytes (enc s v)
+              | _ -> (match parse_exact bs with
+                  | Ok it -> "ok-tree " ^ hex_of_bytes (encode_item it)
+                  | _ -> "unparseable")) in
           let verdict =
-            if ok then "holds"
-            else if starts_with "nv_" label then "na"         (* non-validating constructor: outside the quantifier *)
-            else if starts_with "val_qty_" label then "fails:C03-mint-quantity-outside-int64"
-            else "fails:-" in
+            (match int_of_n (judge_class r bs) with
+             | 0 -> "holds"
+             | c -> if starts_with "nv_" label then "na"      (* non-validating constructor: outside the quantifier *)
+               else if c = 1 then "fails:C03-mint-quantity-outside-int64" else "fails:-") in
           (m, verdict)
         | ["builderr"] -> ("builderr", "na")
         | _ -> ("ok ?", "fails:-")))
